@@ -373,4 +373,42 @@ THEOREM MessageRev == SpecR => []InvR
     BY <2>1, <2>2 DEF NextR
 <1>3. QED
   BY <1>1, <1>2, PTL DEF SpecR
+
+-----------------------------------------------------------------------------
+(* The remainders bulk is append-only while decoding and pop-only while      *)
+(* encoding: a flushed word is never modified, at most one word is written   *)
+(* or removed per symbol.                                                    *)
+THEOREM BulkDiscipline ==
+    ASSUME NEW x \in Cfgs, NEW c \in Nat, NEW p \in Nat, NEW q \in Nat
+    PROVE  /\ Len(DecR(x, c, p, q).bulk) \in {Len(x.bulk), Len(x.bulk) + 1}
+           /\ \A i \in 1..Len(x.bulk) : DecR(x, c, p, q).bulk[i] = x.bulk[i]
+           /\ Len(EncR(x, c, p).cf.bulk) \in {Len(x.bulk), Len(x.bulk) - 1}
+           /\ \A i \in 1..Len(EncR(x, c, p).cf.bulk) : EncR(x, c, p).cf.bulk[i] = x.bulk[i]
+<1>1. x.bulk \in Seq(Nat)
+  BY DEF Cfgs
+<1>2. /\ Len(DecR(x, c, p, q).bulk) \in {Len(x.bulk), Len(x.bulk) + 1}
+      /\ \A i \in 1..Len(x.bulk) : DecR(x, c, p, q).bulk[i] = x.bulk[i]
+  BY <1>1 DEF DecR
+<1> DEFINE eb == EncR(x, c, p).cf.bulk
+<1> DEFINE fr == SubSeq(x.bulk, 1, Len(x.bulk) - 1)
+<1>3. eb = x.bulk \/ eb = fr
+  BY DEF EncR
+<1>4. CASE eb = x.bulk
+  BY <1>4, <1>1, <1>2
+<1>5. CASE eb = fr /\ x.bulk # <<>>
+  <2>1. Len(fr) = Len(x.bulk) - 1 /\ \A i \in 1..(Len(x.bulk) - 1) : fr[i] = x.bulk[i]
+    BY <1>1, <1>5, FrontAppend
+  <2>2. Len(eb) = Len(x.bulk) - 1 /\ \A i \in 1..Len(eb) : eb[i] = x.bulk[i]
+    BY <2>1, <1>5
+  <2>3. QED
+    BY <2>2, <1>2
+<1>6. CASE eb = fr /\ x.bulk = <<>>
+  <2>1. fr = <<>> /\ Len(x.bulk) = 0
+    BY <1>6, <1>1
+  <2>2. eb = x.bulk
+    BY <2>1, <1>6
+  <2>3. QED
+    BY <2>2, <1>1, <1>2
+<1>7. QED
+  BY <1>3, <1>4, <1>5, <1>6
 =============================================================================
